@@ -239,6 +239,31 @@ CHECKS = {
                     "generated case lost data in flight at close time, withheld the end-of-stream, or broke other logical connections."),
         level_note="Bounded-time observation (30 s / 120 s); sampling only.",
     ),
+    "C18": dict(
+        pkg="c18",
+        level="exploration",
+        technique="enumeration of documented schemes and neighbours through the real YAML/JSON/command-line parsers with wire-behaviour probes of the constructed endpoints + property-based testing (rapid) of near-miss address strings",
+        rule=("cases = (position server/upstream/listener/channel, input form YAML / JSON flag / command line, address string). Every "
+              "documented scheme and +tls variant and a list of neighbours (ws, wss, stdio, upper case, tcp4/tpc4, tcp+ssl, "
+              "tls+tcp, ftp, udp+tls, empty...) is parsed by the real go-flags + YamlParser assembly of main.go (command execution "
+              "intercepted). Constructed servers are started on loop-back and probed on the wire (plaintext announce answered, TLS "
+              "handshake + announce, websocket upgrade, KCP, DNS query over udp/tcp, pipes for stdio); constructed upstreams are "
+              "connected to recorders and classified by their first bytes (announce / TLS ClientHello / websocket upgrade / KCP / "
+              "DNS query); listeners and channels are classified by constructed type and by reaching a banner target. Oracle: "
+              "documented scheme => documented transport and encryption, identical for all input forms; unknown/malformed => "
+              "error from parse, Startup or Connect; never a panic; never a +tls/https/wss address that speaks plaintext; an "
+              "accepted address must actually be served (no silently different transport). rapid adds near-miss strings "
+              "(scheme mutations x separators x host forms) in every position with the no-panic oracle. Every case is "
+              "non-trivial; distinct = distinct (position, form, string)"),
+        assumptions=["TLS endpoints are configured with a certificate; probes skip verification (authentication is C05)"],
+        quick=dict(run=".", checks=1500, timeout=900),
+        thorough=dict(run=".", checks=30000, timeout=3000, shards=4),
+        design_ref="DESIGN.md 2/C18",
+        level_text=("Every documented scheme in every position and input form goes through the real parsers and is judged by what the "
+                    "constructed endpoint does on the wire. A green run means documented schemes gave the documented transport in all "
+                    "forms, everything else was rejected with an error, and no generated string crashed a parser."),
+        level_note="The documented table is transcribed from README.md; probes are the harness's own.",
+    ),
     "C19": dict(
         pkg="c19",
         level="exploration",
